@@ -697,6 +697,9 @@ class NpyArray:
             raise IndexError("NpyArray is not initialized")
 
         if self._memmap is None:
+            # Bring the header up to date before the data can be changed in place, so that
+            # the file never shows modified old data under a header that predates an append
+            self._write_header_data()
             order = 'F' if self.fortran_order else 'C'
             self._memmap = np.memmap(self.fs, dtype=self.dtype, shape=self.shape,
                                      offset=self.header_length, order=order)
